@@ -2784,8 +2784,13 @@ class Cond(Generic[X, R], GFI[X, R]):
         else:
             # The discarded values are those that were visible under the *old* condition.
             merged_discard, _ = self.callee.merge(discard, discard_, tr.check)
+        # Each branch weight is relative to that branch's own old score; re-base it on the score
+        # that was visible under the old condition (a no-op whenever check == tr.check).
+        old_score_of_new_branch = jnp.where(
+            check, tr.trs[0].get_score(), tr.trs[1].get_score()
+        )
         return (
             CondTr(self, check, [new_tr, new_tr_]),
-            jnp.where(check, w, w_),
+            jnp.where(check, w, w_) + tr.get_score() - old_score_of_new_branch,
             merged_discard,
         )
